@@ -150,7 +150,8 @@ impl IndexRange {
         if index < self.start {
             index
         } else {
-            index + self.length
+            // saturates instead of overflowing, usize::MAX can never be a valid index
+            index.saturating_add(self.length)
         }
     }
 
